@@ -27,6 +27,10 @@ def expr(rng, depth):
     if r < 0.72:
         # a compound assignment to a variable or to a property (an expression: it stands in parentheses)
         target = rng.choice(["a", "b", "c.p", "d.q", "g(a).p", "(a + b).p", "'lit'.p"]) if rng.random() < 0.85 else "%s.p" % (lambda t: "(%s)" % t if has_top_optional(t) else t)(operand(rng, depth - 1, "r"))
+        if rng.random() < 0.35:
+            # a computed key: the object is read first, then the key (identifier / literal keys stay, others are captured --
+            # and the object before them)
+            target = "%s[%s]" % (rng.choice(["a", "c", "'lit'", "g(a)", "(a + b)", "d.q", "c.p"]), expr(rng, depth - 1))
         return "(%s += %s)" % (target, expr(rng, depth - 1))
     if r < 0.86:
         # a method call with one argument; a sum as receiver needs parentheses
